@@ -1,13 +1,14 @@
 ------------------------------ MODULE MCLoader ------------------------------
 (* Bounded constants for the linker/loader model of Loader.tla, and the REPLAY records that drive
    the pointer-place scenarios of C09 / C23: the chosen offsets, the parity of the section start,
-   RELR on/off, and what the two rules of the implementation predict (entries reserved by the layout
-   vs entries consumed by the writer; they differ exactly when the link must be expected to fail
-   with an accounting error on the pinned tree). *)
+   the section's alignment class, RELR on/off, and what the rule under test predicts (entries reserved
+   by the layout vs entries consumed by the writer; for the rule of the tree, "code", they never
+   differ; for the old "offset" rule they differ exactly where the link used to fail with an
+   accounting error). *)
 EXTENDS Loader, Json
 OffsSmall == {0, 1, 8, 9, 16, 17, 24, 32, 40, 520}
 BasesSmall == {WZero64, W64(65536), <<5713920, 1249620, 32530>>}   \* 0, 0x10000, 0x7f12_3456_7000
-Rec == [offs |-> SortSet(offs), secodd |-> secodd, relr |-> relrOn,
+Rec == [offs |-> SortSet(offs), secodd |-> secodd, aligned |-> aligned, relr |-> relrOn,
         alloc_relr |-> NAllocRelr, write_relr |-> NWriteRelr,
         predicted_mismatch |-> (NAllocRelr # NWriteRelr)]
 EmitReplay == (phase = "loaded" /\ offs # {}) => PrintT(<<"REPLAY", ToJson(Rec)>>)
